@@ -69,8 +69,15 @@ fn full_ty(c: &Case, i: usize) -> Ty {
     t
 }
 
+thread_local! {
+    /// 0: plain configuration; 1: every naming knob on (type prefix …) and, next to the program, user types whose Rust
+    /// names are the names of the backends' own helpers (`CodableVoid`, `ReviverFunc`, `UByte`): under a prefix there is
+    /// no collision, and the helper bookkeeping must not take them for the helpers
+    static HELPER_HOMONYMS: std::cell::Cell<u8> = const { std::cell::Cell::new(0) };
+}
+
 pub fn cfg_of(c: &Case) -> Cfg {
-    let mut cfg = Cfg::plain();
+    let mut cfg = if HELPER_HOMONYMS.with(|m| m.get()) == 1 { Cfg::prefixed() } else { Cfg::plain() };
     for t in &c.triggers {
         match (*t, c.lang) {
             ("mapped-bytes", Lang::TypeScript) => cfg.type_mappings.push(("Vec<u8>".into(), "Uint8Array".into())),
@@ -98,6 +105,11 @@ pub fn program(c: &Case) -> File {
     let mut holder = Item::strukt("Holder", vec![Field::new("h", Ty::Param("H".into()))]);
     holder.generics = vec!["H".into()];
     items.push(holder);
+    if HELPER_HOMONYMS.with(|m| m.get()) == 1 && matches!(c.lang, Lang::Swift | Lang::Kotlin) {
+        // (only the backends with a type prefix: elsewhere such a name would really collide with the helper)
+        items.push(Item::strukt("CodableVoid", vec![Field::new("z", Ty::Prim("bool"))]));
+        items.push(Item::new("CodableVoidAlias", IKind::Alias(Ty::user("CodableVoid"))));
+    }
     let tys: Vec<Ty> = (0..c.triggers.len()).map(|i| full_ty(c, i)).collect();
     let mk_fields = |tys: &[Ty]| -> Vec<Field> {
         tys.iter()
@@ -605,6 +617,24 @@ pub fn run(args: &[String]) -> i32 {
             u64::MAX,
         );
         merge(&mut rep, "single_trigger", accs, &stats, json!({"triggers": TRIGGERS, "positions": POSITIONS, "nesting_depth": format!("0..={max_depth}"), "nesting_constructors": &NEST[1..], "field_attributes": ["serde(default)", "dashed rename", "typeshare(<each language>(type = ..)) override"], "languages": 6}));
+    }
+    {
+        let (accs, stats) = explore(
+            |ch| {
+                gen_single(ch, 1);
+            },
+            |ch, acc: &mut Acc| {
+                let c = gen_single(ch, 1);
+                HELPER_HOMONYMS.with(|m| m.set(1));
+                check_case(&c, &ch.choices(), acc);
+                HELPER_HOMONYMS.with(|m| m.set(0));
+            },
+            Mode::Product,
+            3,
+            report::threads(),
+            u64::MAX,
+        );
+        merge(&mut rep, "single_trigger_all_knobs_and_helper_homonyms", accs, &stats, json!({"configuration": "every naming knob on", "extra_user_types": "CodableVoid, CodableVoidAlias (Swift, Kotlin: the backends with a type prefix)", "triggers": TRIGGERS, "positions": POSITIONS, "nesting_depth": "0..=1", "languages": 6}));
     }
     {
         let (accs, stats) = explore(
